@@ -359,6 +359,7 @@ func runC43(c *core.Ctx) {
 				}
 			}
 			c.Floor("SetKeyPair(new ciphertext) in ChangePassword", len(installs), 1)
+			checkRollbackIsACopy(c, fn, installs)
 			eng.Dominates(c, "C43.change-password", fn, eng.NamedGuard{Name: "EncryptWithCustomScrypt err==nil", G: ir.ErrNil(func(x *ssa.Call) bool { return x == enc })}, ir.CallSinks(installs, "SetKeyPair(new)"), "installing the new ciphertext", nil)
 		}
 	}
